@@ -259,6 +259,9 @@ def main(argv=None):
     known_lines = []
     und_notes = []
     # ---- failed obligations: known finding, or replay and report
+    t_replay = time.time()
+    replay_budget = float(os.environ.get("PYVC_REPLAY_BUDGET_S", "300"))
+    have_replay = 0
     for (name, mode), items in sorted(failed.items()):
         kf = [k for k in known if k.get('obligation') == name and k.get('mode', mode) == mode]
         if kf:
@@ -268,8 +271,11 @@ def main(argv=None):
         chosen = None
         info = None
         tried = 0
+        # once a few failing obligations carry a reproduced input, the remaining ones are reported without spending minutes on
+        # each (they are still named violations: `no-failing-input-found`)
+        out_of_time = (time.time() - t_replay > replay_budget) and have_replay >= 1
         for r, o in items:
-            if tried >= 4:
+            if tried >= (0 if out_of_time else 4):
                 break
             rec = dict(property=prop, obligation=name, mode=mode, solver_output=o.get('model_text'),
                        goal=o.get('goal'), detail=o.get('detail'), path=o.get('path'))
@@ -298,7 +304,7 @@ def main(argv=None):
             if ok:
                 reproduced = fn
                 break
-        if not reproduced and items[0][0] is not None:
+        if not reproduced and items[0][0] is not None and not out_of_time:
             # no direct replay (e.g. an inductive-step obligation whose model talks about ghost state):
             # search the real code with the unit's contract on random inputs (bounded stand-in)
             r0 = items[0][0]
@@ -322,6 +328,7 @@ def main(argv=None):
                 if ok:
                     reproduced = fn
         if reproduced:
+            have_replay += 1
             violations.append("VIOLATION property=%s replay=%s obligation=%r mode=%s" % (prop, reproduced, name, mode))
         elif items[0][0] is not None and items[0][0]['unsupported']:
             # the unit left the supported subset on some path (e.g. a loop was restructured and its invariant is
